@@ -124,6 +124,27 @@ def growth_rules(chk, prog, eff, G, label):
     return nsites
 
 
+def _truthy12(st, r):
+    for t, truth in st.truth.items():
+        x = t
+        neg = False
+        while isinstance(x, tuple) and x[0] in ("cast", "not"):
+            if x[0] == "not":
+                neg = not neg
+                x = x[1]
+            else:
+                x = x[3]
+        if x == r and (truth != neg):
+            return True
+        if isinstance(x, tuple) and x[0] == "icmp" and x[1] in ("eq", "ne") and x[3] == ("c", 0):
+            y = x[2]
+            while isinstance(y, tuple) and y[0] == "cast":
+                y = y[3]
+            if y == r and ((x[1] == "ne") == (truth != neg)):
+                return True
+    return False
+
+
 def check_capacity_field(chk, rule, prog, eff, cache, floor=8):
     """Representation invariant behind 'size never exceeds allocated capacity': whenever a freshly (re)allocated block is
     installed as a container's storage (item.data, or the chunk table of a chunked string), the capacity field that sits
@@ -291,6 +312,16 @@ def run(ctx, chk):
         if av:
             ok = len(ak) == 1 and pa.st.truth.get(ak[0].res) is True and ak[0].args[0] == av[0].args[0] and pa.events.index(ak[0]) < pa.events.index(av[0])
             chk.ob("C12.value-slot", "cbor_map_add path %d" % k, ok, "%s:%d" % (f.file, f.line), fn=f.name, key="mapadd:%d" % k)
+    chk.rule("C12.add-contract", "cbor_map_add reports success only for a pair that was appended: every path that can return true has a "
+                                 "successful _cbor_map_add_key on the map (a full definite map refuses, it is never updated in place)")
+    for k, pa in enumerate(cache.get("cbor_map_add")):
+        r = pa.ret
+        if r == ("c", 0):
+            continue
+        ak = [e for e in pa.calls("_cbor_map_add_key") if e.args[0] == ("arg", 0) and (pa.st.truth.get(e.res) is True or _truthy12(pa.st, e.res))]
+        chk.ob("C12.add-contract", "cbor_map_add path %d: success only after the key was appended" % k, bool(ak), "%s:%d" % (f.file, f.line),
+               fn=f.name, key="addc:%d" % k, detail="" if ak else "may return true (%s) although _cbor_map_add_key did not succeed on this path" % DR.fmt_term(r),
+               path=pa.block_lines() if not ak else None)
     b = prog.fn("_cbor_builder_append")
     for c in b.calls("_cbor_map_add_value"):
         # in the odd-parity arm: dominated by the true edge of (subitems % 2)
